@@ -19,6 +19,8 @@ pub const PLUGIN: &str = "/verif/target/release/libchess_bot.so";
 #[derive(Clone, Debug, Serialize, Deserialize, PartialEq)]
 pub enum POp {
     SetBoard(Root),
+    /// set_board with the plugin's CURRENT position (re-parsed, other clocks): must reset the history too
+    SetCurrent(u16),
     Legal(u8, u16),
     Illegal(u8, u8, u8),
     /// a near miss derived from the legal moves (promotion without a piece, ordinary move
@@ -207,6 +209,19 @@ fn run_case(c: &PluginCase, st: &mut Stats) -> Result<(), String> {
                     board_matches(e, &m.pos, "after set_board")?;
                     legal_played = 0;
                 }
+                POp::SetCurrent(clk) => {
+                    let mut p = m.pos.clone();
+                    if p.ep.is_none() {
+                        p.half = (*clk % 90) as u32;
+                    }
+                    p.full = (*clk % 4000) as u32;
+                    e.set_board(to_board(&p)?);
+                    m.set(p);
+                    explicit_set = true;
+                    trace.push("set_board(current position)".into());
+                    board_matches(e, &m.pos, "after set_board(current)")?;
+                    st.class("set_board with the current position");
+                }
                 POp::Legal(bias, idx) => {
                     if !explicit_set {
                         // fresh engine: treat as set_board(standard) for a single, well-defined reading
@@ -326,6 +341,7 @@ fn long_shuffle(plies: usize) -> Result<(), String> {
 fn strategy() -> impl Strategy<Value = PluginCase> {
     let op = prop_oneof![
         1 => root_strategy(20).prop_map(POp::SetBoard),
+        1 => any::<u16>().prop_map(POp::SetCurrent),
         8 => (prop_oneof![5 => Just(0u8), 3 => 1u8..9], any::<u16>()).prop_map(|(b, i)| POp::Legal(b, i)),
         2 => (any::<u8>(), any::<u8>(), any::<u8>()).prop_map(|(a, b, c)| POp::Illegal(a, b, c)),
         3 => any::<u16>().prop_map(POp::NearMiss),
@@ -365,7 +381,7 @@ pub const C15: CheckDef = CheckDef {
     id: "C15",
     worker,
     replay,
-    rule: "system under test: libchess_bot.so built from the working tree, loaded through chess_api::ChessApiRef::load_from_file, a fresh new_engine() per case, driven only through chess_api::ChessEngine. case = op list over {set_board(generated position), legal move (biased classes), arbitrary (from,to,promotion) triple, near miss of a legal move (promotion without piece, ordinary move with a piece, castling target without the right, en-passant square without marker), reversible manoeuvre a b a^-1 b^-1 repeated r <= 5 times, board(), evaluate(limit k)}; a directed family repeats a knight shuffle for > 1000 plies (> 255 repetitions). Oracle: reference position + HashMap<position key, count> cleared by set_board: make_move valid iff reference-legal; invalid leaves board() unchanged and raises no flag; valid makes board() equal the reference successor (text, ==, hash) and raises the flag iff the new key's count becomes exactly 3; evaluate returns None or a reference-legal move. Whether the set position itself counts as the first occurrence is calibrated at the start of every run with a 12-ply knight shuffle (flag at ply 8 -> counts; at ply 12 -> does not) and the reading in force is recorded in samples; a plugin that fits neither reading is a violation. Non-trivial = some key reaches count >= 3, or an illegal move is offered after >= 1 legal move; distinct by move trace.",
+    rule: "system under test: libchess_bot.so built from the working tree, loaded through chess_api::ChessApiRef::load_from_file, a fresh new_engine() per case, driven only through chess_api::ChessEngine. case = op list over {set_board(generated position), set_board(the current position again, other clocks), legal move (biased classes), arbitrary (from,to,promotion) triple, near miss of a legal move (promotion without piece, ordinary move with a piece, castling target without the right, en-passant square without marker), reversible manoeuvre a b a^-1 b^-1 repeated r <= 5 times, board(), evaluate(limit k)}; a directed family repeats a knight shuffle for > 1000 plies (> 255 repetitions). Oracle: reference position + HashMap<position key, count> cleared by set_board: make_move valid iff reference-legal; invalid leaves board() unchanged and raises no flag; valid makes board() equal the reference successor (text, ==, hash) and raises the flag iff the new key's count becomes exactly 3; evaluate returns None or a reference-legal move. Whether the set position itself counts as the first occurrence is calibrated at the start of every run with a 12-ply knight shuffle (flag at ply 8 -> counts; at ply 12 -> does not) and the reading in force is recorded in samples; a plugin that fits neither reading is a violation. Non-trivial = some key reaches count >= 3, or an illegal move is offered after >= 1 legal move; distinct by move trace.",
     assumptions: &[
         "position identity = placement, side to move, castling rights, en-passant file (as the property states)",
         "the occurrence-counting reading is calibrated, not assumed (DESIGN.md C15)",
